@@ -23,6 +23,7 @@ struct SessCfg {
     peer: String,
     addr: IpAddr,
     ebgp: bool,
+    role: String,
     rtr: u32,
     max: Option<u32>,
 }
@@ -129,6 +130,7 @@ fn parse_cfg(v: &Value) -> Cfg {
             peer: s["peer"].as_str().unwrap().to_string(),
             addr,
             ebgp: s["ebgp"].as_bool().unwrap(),
+            role: s["role"].as_str().unwrap_or("").to_string(),
             rtr: s["rtr"].as_u64().unwrap() as u32,
             max: s["max"].as_u64().map(|m| m as u32),
         });
@@ -156,7 +158,15 @@ fn new_world(cfg: &Cfg) -> World {
     let mut src_name = HashMap::new();
     let mut counters = HashMap::new();
     for s in &cfg.sessions {
-        let (role, rasn) = if s.ebgp { (table::PeerRole::Ebgp, 65001) } else { (table::PeerRole::Ibgp, 65000) };
+        // the model's `ebgp` is "preferred over iBGP at the eBGP step": external and route-server-client sessions;
+        // internal, route-reflector-client and confederation-external ones are not
+        let (role, rasn) = match s.role.as_str() {
+            "RsClient" => (table::PeerRole::RsClient, 65003),
+            "IbgpRrClient" => (table::PeerRole::IbgpRrClient, 65000),
+            "ConfedEbgp" => (table::PeerRole::ConfedEbgp, 65002),
+            _ if s.ebgp => (table::PeerRole::Ebgp, 65001),
+            _ => (table::PeerRole::Ibgp, 65000),
+        };
         let src = Arc::new(table::Source::new(
             s.addr,
             IpAddr::V4(Ipv4Addr::new(10, 0, 0, 254)),
